@@ -20,7 +20,7 @@ use zoo::*;
 
 /// CPU seconds (user+system of this process, ITIMER_PROF) one evaluation may consume before the process is ended by
 /// SIGPROF. CPU time, not wall-clock time: a descheduled or swapped-out worker on a busy machine must not look hung.
-const EVAL_CPU_SECONDS: i64 = 30;
+const EVAL_CPU_SECONDS: i64 = 12;
 #[repr(C)]
 struct TimeVal {
     tv_sec: i64,
